@@ -1,4 +1,181 @@
+// seq_arena.cpp -- C15: arena-bound heaps stay inside their arena; exclusive arenas stay private; memory handed to
+// mi_manage_os_memory_ex is only used within the bounds given.
 #include "seq.hpp"
+#include <sys/mman.h>
+#include <thread>
+#include <system_error>
+
 namespace seq {
-void run_arena_profile(State&) {}
+
+static const size_t KiB = 1024, MiB = 1024 * 1024;
+struct Guard { uint8_t* p; size_t len; uint8_t v; };
+static std::vector<Guard> g_guards;
+static uint64_t g_ar_threads = 0, g_ar_thread_blocks = 0, g_ar_full_events = 0, g_ar_bound_allocs = 0, g_ar_other_allocs = 0, g_ar_geoms = 0;
+static std::string g_geom;
+
+static void check_guards(const char* when) {
+  for (auto& g : g_guards) for (size_t i = 0; i < g.len; i++) if (g.p[i] != g.v)
+    vf_trip("outside-given-bounds", "C15", "%s: byte %zu of the canary zone %p next to a region given to mi_manage_os_memory_ex was changed to 0x%02x", when, i, (void*)g.p, g.p[i]);
 }
+
+// a region with deliberately awkward geometry: start = 32MiB-aligned base + k*4KiB, odd size; canary (committed case) or PROT_NONE (uncommitted case) around it
+static void make_arena(State& S, bool exclusive) {
+  size_t nb = 3 + (size_t)vf_rng_below(&S.rng, 6);                       // 3..8 arena blocks
+  size_t off = (vf_rng_chance(&S.rng, 1, 3) ? 0 : (size_t)vf_rng_below(&S.rng, 8192) * 4096);
+  size_t size = nb * 32 * MiB + (vf_rng_chance(&S.rng, 1, 3) ? 0 : (size_t)vf_rng_below(&S.rng, 4096) * 4096);
+  bool committed = vf_rng_chance(&S.rng, 1, 2);
+  size_t reserve = size + off + 64 * MiB + 2 * MiB;
+  uint8_t* raw = (uint8_t*)vf_real_mmap(nullptr, reserve, PROT_NONE, MAP_PRIVATE | MAP_ANONYMOUS | MAP_NORESERVE, -1, 0);
+  if (raw == (uint8_t*)MAP_FAILED) vf_trip("harness", "", "cannot reserve address space");
+  uint8_t* base = (uint8_t*)((((uintptr_t)raw + 1 * MiB) + 32 * MiB - 1) & ~(uintptr_t)(32 * MiB - 1));
+  uint8_t* start = base + off;
+  const size_t G = 64 * KiB;
+  if (committed) {
+    vf_real_mprotect(start - G, size + 2 * G, PROT_READ | PROT_WRITE);
+    Guard g1 = { start - G, G, 0xC5 }, g2 = { start + size, G, 0x5C };
+    memset(g1.p, g1.v, G); memset(g2.p, g2.v, G);
+    g_guards.push_back(g1); g_guards.push_back(g2);
+  }
+  mi_arena_id_t id = 0;
+  bool ok = mi_manage_os_memory_ex(start, size, committed, false, true /* zero */, -1, exclusive, &id);
+  if (!ok) {
+    // the region may be too small after alignment: that is a legitimate refusal, but then nothing of it may be used
+    char b[128]; snprintf(b, sizeof(b), "[refused nb=%zu off=%zu size=%zu] ", nb, off, size); g_geom += b;
+    return;
+  }
+  size_t asz = 0; uint8_t* ab = (uint8_t*)mi_arena_area(id, &asz);
+  if (ab == nullptr || ab < start || ab + asz > start + size)
+    vf_trip("arena-area-outside-given", "C15", "mi_arena_area = [%p,+%zu) is not contained in the region [%p,+%zu) given to mi_manage_os_memory_ex", (void*)ab, asz, (void*)start, size);
+  ArenaInfo ai; ai.id = id; ai.lo = (uintptr_t)ab; ai.hi = (uintptr_t)ab + asz; ai.given_lo = (uintptr_t)start; ai.given_hi = (uintptr_t)start + size; ai.exclusive = exclusive;
+  S.arenas.push_back(ai);
+  mi_heap_t* h = mi_heap_new_in_arena(id);
+  if (h == nullptr) vf_trip("harness", "", "mi_heap_new_in_arena failed");
+  HeapEnt e; e.h = h; e.alive = true; e.arena = (int)S.arenas.size() - 1;
+  S.heaps.push_back(e);
+  g_ar_geoms++;
+  char b[160]; snprintf(b, sizeof(b), "[arena#%zu blocks=%zu off=%zuK size=%zuK committed=%d excl=%d area=%zuMiB] ", S.arenas.size() - 1, nb, off / 1024, size / 1024, (int)committed, (int)exclusive, asz >> 20); g_geom += b;
+}
+
+static int bound_heap(State& S) {
+  std::vector<int> c; for (size_t i = 1; i < S.heaps.size(); i++) if (S.heaps[i].alive && S.heaps[i].arena >= 0) c.push_back((int)i);
+  return c.empty() ? -1 : c[vf_rng_below(&S.rng, c.size())];
+}
+
+static size_t arena_size_gen(State& S) {
+  unsigned r = (unsigned)vf_rng_below(&S.rng, 100);
+  if (r < 40) return 1 + (size_t)vf_rng_below(&S.rng, 2048);
+  if (r < 70) return 2048 + (size_t)vf_rng_below(&S.rng, 60 * KiB);
+  if (r < 90) return 64 * KiB + (size_t)vf_rng_below(&S.rng, 2 * MiB);
+  if (r < 97) return 2 * MiB + (size_t)vf_rng_below(&S.rng, 20 * MiB);
+  return 20 * MiB + (size_t)vf_rng_below(&S.rng, 60 * MiB);
+}
+
+// a thread with its own heap bound to arena j: allocates, then terminates with live blocks (its segments inside the arena are abandoned)
+static void thread_in_arena(State& S, int j) {
+  struct TB { void* p; size_t n; };
+  std::vector<TB> out;
+  mi_arena_id_t id = S.arenas[j].id;
+  uint64_t seed = vf_rng_next(&S.rng);
+  uintptr_t lo = S.arenas[j].lo, hi = S.arenas[j].hi;
+  const bool excl = S.arenas[j].exclusive;
+  bool bad = false; void* badp = nullptr;
+  try {
+    std::thread t([&]() {
+      vf_rng_t r; vf_rng_seed(&r, seed);
+      mi_heap_t* h = mi_heap_new_in_arena(id);
+      if (h == nullptr) return;
+      for (int i = 0; i < 60; i++) {
+        size_t n = 1 + (size_t)vf_rng_below(&r, (i % 10 == 0) ? 300 * KiB : 4000);
+        void* p = mi_heap_malloc(h, n);
+        if (p == nullptr) continue;
+        if ((uintptr_t)p < lo || (uintptr_t)p + n > hi) { bad = true; badp = p; }
+        memset(p, 0x77, n);
+        TB tb = { p, n }; out.push_back(tb);
+      }
+      // the default heap of this thread must stay outside the exclusive arena
+      for (int i = 0; i < 20; i++) { void* q = mi_malloc(500); if (q && excl && (uintptr_t)q >= lo && (uintptr_t)q < hi) { bad = true; badp = q; } mi_free(q); }
+      mi_heap_delete(h);   // blocks migrate to this thread's backing heap; they stay where they are (inside the arena)
+    });
+    t.join();
+  } catch (const std::system_error& e) { vf_trip("harness", "", "cannot create a thread: %s", e.what()); }
+  if (bad) vf_trip("outside-bound-arena", "C15", "a thread's arena-bound heap / default heap returned %p on the wrong side of exclusive arena #%d [%p,%p)", badp, j, (void*)lo, (void*)hi);
+  for (auto& tb : out) {
+    size_t u = mi_usable_size(tb.p);
+    vf::Blk* b = S.sm.add(tb.p, tb.n, u, -1, 0, 0, false, EP_heap_malloc);
+    S.sm.fill(b);
+    S.foreign_live++; S.n_foreign++; g_ar_thread_blocks++;
+  }
+  g_ar_threads++; S.n_thread_exits++;
+}
+
+static void arena_print(FILE* f) {
+  fprintf(f, ",\"arena\":{\"arenas\":%llu,\"bound_allocs\":%llu,\"other_allocs\":%llu,\"inside_checks\":%llu,\"outside_checks\":%llu,\"null_when_full\":%llu,\"threads\":%llu,\"thread_blocks\":%llu,\"geometry\":",
+          (unsigned long long)g_ar_geoms, (unsigned long long)g_ar_bound_allocs, (unsigned long long)g_ar_other_allocs, (unsigned long long)G->n_arena_inside, (unsigned long long)G->n_arena_outside,
+          (unsigned long long)G->n_arena_null, (unsigned long long)g_ar_threads, (unsigned long long)g_ar_thread_blocks);
+  vf_json_str(f, g_geom.c_str());
+  fputs("}", f);
+}
+
+void run_arena_profile(State& S) {
+  add_result_printer(&arena_print);
+  S.sm.refutes_generic = "C15";
+  S.cfg.threads = true;      // conservation uses the range form (blocks of terminated threads)
+  S.cfg.tolerate_enomem = true;
+  // some ordinary allocation first (so that the default heap has cached free spans), then the arenas
+  for (int i = 0; i < 200; i++) do_alloc(S, EP_malloc, arena_size_gen(S) % (256 * KiB));
+  int na = 1 + (int)vf_rng_below(&S.rng, 3);
+  for (int j = 0; j < na; j++) make_arena(S, j == 0 ? true : vf_rng_chance(&S.rng, 2, 3));
+  if (S.arenas.empty()) make_arena(S, true);
+  static const int bound_eps[] = { EP_heap_malloc, EP_heap_zalloc, EP_heap_calloc, EP_heap_mallocn, EP_heap_malloc_small, EP_heap_malloc_aligned, EP_heap_zalloc_aligned_at, EP_heap_strdup };
+  static const int other_eps[] = { EP_malloc, EP_zalloc, EP_calloc, EP_malloc_small, EP_malloc_aligned, EP_new_nothrow, EP_strdup, EP_posix_memalign };
+  for (S.op_index = 0; S.op_index < S.cfg.ops; S.op_index++) {
+    vf_cur_op = S.op_index;
+    unsigned r = (unsigned)vf_rng_below(&S.rng, 100);
+    bool over = (S.sm.live_bytes > S.cfg.max_live_bytes || S.sm.live.size() > 6000);
+    if (r < 36 && !over) {
+      int hi = bound_heap(S); if (hi < 0) continue;
+      S.force_heap = hi;
+      int ep = bound_eps[vf_rng_below(&S.rng, sizeof(bound_eps) / sizeof(bound_eps[0]))];
+      size_t n = arena_size_gen(S);
+      if (ep == EP_heap_malloc_small) n = n % 1024;
+      S.cfg.size_cap = 8 * MiB;
+      vf::Blk* b = do_alloc(S, ep, n);
+      S.cfg.size_cap = 0;
+      S.force_heap = -1;
+      if (b) g_ar_bound_allocs++; else g_ar_full_events++;
+    }
+    else if (r < 62 && !over) {
+      int ep = other_eps[vf_rng_below(&S.rng, sizeof(other_eps) / sizeof(other_eps[0]))];
+      S.cfg.size_cap = 4 * MiB;
+      vf::Blk* b = do_alloc(S, ep, arena_size_gen(S) % (3 * MiB));
+      S.cfg.size_cap = 0;
+      if (b) g_ar_other_allocs++;
+    }
+    else if (r < 90) {
+      if (S.sm.live.empty()) continue;
+      vf::Blk* b = S.sm.live[vf_rng_below(&S.rng, S.sm.live.size())];
+      if (b->heap < 0) S.foreign_live--;
+      do_free(S, b);
+    }
+    else if (r < 94) { int j = (int)vf_rng_below(&S.rng, S.arenas.size()); thread_in_arena(S, j); }
+    else if (r < 97) { vf_cur_what = "collect"; mi_collect(vf_rng_chance(&S.rng, 1, 2)); }
+    else {
+      // fill a bound heap until it refuses: it must return NULL, never memory from elsewhere (checked by the range oracle on every block)
+      int hi = bound_heap(S); if (hi < 0) continue;
+      S.force_heap = hi;
+      std::vector<vf::Blk*> got;
+      for (int i = 0; i < 40; i++) { vf::Blk* b = do_alloc(S, EP_heap_malloc, 20 * MiB + (size_t)vf_rng_below(&S.rng, 10 * MiB)); if (!b) break; got.push_back(b); }
+      S.force_heap = -1;
+      for (vf::Blk* b : got) do_free(S, b);
+    }
+    if ((S.op_index & 255) == 255) { check_guards("periodic"); check_conservation(S, "periodic", "C15,C12"); }
+    if ((S.op_index & 1023) == 1023) { S.sm.verify_all("periodic"); }
+  }
+  S.sm.verify_all("end");
+  check_guards("end");
+  free_all(S);
+  mi_collect(true);
+  check_guards("after freeing everything");
+}
+
+} // namespace seq
